@@ -133,7 +133,7 @@ UNITS = [
 VERIFIED_CALLEES = ("ast_get_call_positional_indexes", "ast_get_call_keyword_names", "get_arg_kind_index")
 LEVEL = "other"
 TECHNIQUE = "contract-based verification of the list-algebra helpers (complete case analysis of small shapes through the real AST) + bounded comparison of the resolver with the interpreter on generated source files"
-LEVEL_TEXT = "The AST resolver proper is a static analysis of the user's source: its soundness is compared with the interpreter by the bounded harness (about 1300 generated programs written to real files, incl. resolution histories). Verified are the helpers that implement the clauses: get_signature_parameters (resolver order; a failing or not-applying resolver hands over), remove_given_parameters (hard-coded positions and keywords are not offered), replace_args_and_kwargs (no duplicate names), split_args_and_kwargs, group_parameters (a parameter accepted by every forwarding use with one type and at most one default keeps them - required stays required -, otherwise conditional with exactly the defaults of its uses; 8400 use patterns), and the MRO cursor: ast_is_supported_super_call (super(X, self) moves the cursor to X's absolute position), get_mro_parameters (next class that defines the method itself), mro_context (cursor restored on every exit)."
+LEVEL_TEXT = "The AST resolver proper is a static analysis of the user's source: its soundness is compared with the interpreter by the bounded harness (about 1300 generated programs written to real files, incl. resolution histories). Verified are the helpers that implement the clauses: get_signature_parameters (resolver order; a failing or not-applying resolver hands over), remove_given_parameters (hard-coded positions and keywords are not offered), replace_args_and_kwargs (no duplicate names), split_args_and_kwargs, group_parameters (a parameter accepted by every forwarding use with one type and at most one default keeps them - required stays required -, otherwise conditional with exactly the defaults of its uses; 8400 use patterns), and the MRO cursor: ast_is_supported_super_call (super(X, self) moves the cursor to X's absolute position), get_mro_parameters (next class that defines the method itself), mro_context (cursor restored on every exit). Verified too is the dispatcher of the AST resolver by contract of the analyses it calls: get_parameters (the body is analysed only for a signature with *args/**kwargs, under the MRO cursor of the parent), get_parameters_args_and_kwargs (what each use of **kwargs contributes - pop/get, super() call, call of a known component, self.attr = kwargs - and that forms not understood contribute nothing; a name hard-coded by a forwarding use is not offered), get_kwargs_pop_or_get_parameter, get_parameters_call_attr, add_node_origins; get_mro_parameters for multiple inheritance (a class inherits along its own bases); remove_given_parameters with ** anywhere among the keywords."
 LEVEL_NOTE = "under construction"
 EXPLANATION = "under construction"
 ASSUMPTIONS = []
